@@ -13,6 +13,9 @@ structure, and every event value must equal BIT FOR BIT the real *dense* convers
 (Float / Float32 / Int) and is compared bit for bit.
 oracle: the same statement evaluated without the model (own flattening; single-event dense conversions;
 2-d dense conversion of the bin edges; deep snapshot of the input before/after).
+Beyond convert(): every kernel called directly with binned operands, and transform_coords with the gravity kernels
+in the graph (keys C06:input-modified:<kernel>, C06:event-value-differs-from-dense:<kernel>,
+C06:second-call-differs:<kernel>, C06:event-vs-dense-exception:<kernel>, C06:bin-sizes-changed:<kernel>).
 """
 from __future__ import annotations
 
@@ -33,7 +36,13 @@ RULE = (
     'target of {wavelength, energy, dspacing, Q, Q_vec, energy_transfer(direct), energy_transfer(indirect)} x scatter '
     'is converted. Non-trivial = the conversion ran in event mode and in dense mode (or both raised the same '
     'exception class); distinct = distinct (layout seed, target, scatter). Per case also: which parts (dense bin-edge / '
-    'event) the target has vs the model of ComputeRule; wavelength and energy_transfer executed numerically by the model.'
+    'event) the target has vs the model of ComputeRule; wavelength and energy_transfer executed numerically by the model. '
+    'Two further streams go beyond convert(): (kernel) every kernel of conversion/tof.py and the gravity kernels of '
+    'conversion/beamline.py called directly with BINNED operands (event tof/wavelength/energy/Q in units and dtypes that '
+    'make internal conversions no-ops, e.g. wavelength in m, float64/float32/int64; per-pixel dense operands), and '
+    '(graph) transform_coords with beamline(scatter=True) + elastic(wavelength) + the gravity kernels in the graph; for '
+    'both: per-event result bit for bit vs the dense kernel on the flattened events (own flattening and the pairs the '
+    'Lean model predicts), bit-level snapshot of all operands before/after, and a second call on the same input.'
 )
 ASSUMPTIONS = [
     "scipp's C++ engine applies the scalar operation of a kernel to every event with the bin's dense operand "
@@ -52,6 +61,10 @@ TARGETS = [
     ('Q_vec', True, None), ('energy_transfer', True, 'direct'), ('energy_transfer', True, 'indirect'),
     ('wavelength', False, None), ('energy', False, None),
 ]
+
+
+KERNEL_BASE = 2_000_000   # case indices of the direct-kernel stream
+GRAPH_BASE = 3_000_000    # case indices of the transform_coords-with-gravity-graph stream
 
 
 def bits64(x: float) -> str:
@@ -133,7 +146,7 @@ def make_case(seed, idx):
         # bin grid stored as [tof, spectrum] instead of [spectrum, tof]
         'transposed': bool(grid == 'pixel-tof' and rng.random() < 0.3),
     }
-    if storage == 'sliced' and npix >= 2:
+    if storage == 'sliced' and npix >= 2 and idx < KERNEL_BASE:
         a = int(rng.integers(0, npix - 1))
         b = int(rng.integers(a + 1, npix + 1))
         case['slice'] = (a, b)
@@ -549,6 +562,332 @@ def oracle_checks(case, mode, target, scatter, da, res, snap, rec):
             viol.append(('C06:edge-coordinate-differs', 'bin-edge coordinate differs from the dense conversion of the bin edges'))
 
 
+
+# ---- binned operands passed directly to the kernels; transform_coords with the gravity kernels ----------------
+
+EVENT_UNITS = {
+    # (base unit, lo, hi), candidate units with weights; the first candidates are those for which a unit conversion
+    # inside some kernel is a no-op (wavelength in m for the gravity kernels, …)
+    'tof': ('us', 3000.0, 25000.0, ['us', 'ms', 's', 'ns'], [0.4, 0.2, 0.2, 0.2]),
+    'wavelength': ('angstrom', 0.5, 10.0, ['m', 'angstrom', 'nm'], [0.45, 0.35, 0.2]),
+    'energy': ('meV', 1.0, 100.0, ['meV', 'J', 'eV'], [0.5, 0.25, 0.25]),
+    'Q': ('1/angstrom', 0.5, 10.0, ['1/angstrom', '1/m', '1/nm'], [0.5, 0.25, 0.25]),
+}
+
+
+def kernel_setup(case):
+    """units, dtypes and values of the event operands and the geometry of the kernel / graph streams"""
+    import numpy as np
+    import scipp as sc
+
+    rng = np.random.default_rng([case['seed'], case['idx'], 707])
+    nbuf = case['nbuf']
+    ev = {}
+    for name, (base, lo, hi, units, w) in EVENT_UNITS.items():
+        unit = str(rng.choice(units, p=w))
+        dtype = str(rng.choice(['float64', 'float32'], p=[0.55, 0.45]))
+        if name == 'tof' and unit in ('us', 'ns') and rng.random() < 0.2:
+            dtype = 'int64'
+        scale = float(sc.to_unit(sc.scalar(1.0, unit=base), unit).value)
+        vals = (rng.uniform(lo, hi, nbuf) * scale).astype(dtype)
+        ev[name] = (vals, unit, dtype)
+    # wavelength in angstrom for time_at_sample (no unit conversion inside that kernel)
+    ev['wavelength_A'] = (rng.uniform(0.5, 10.0, nbuf).astype(ev['tof'][2] if ev['tof'][2] != 'int64' else 'float64'), 'angstrom', 'x')
+    npix = case['npix']
+    orth = bool(rng.random() < 0.5)
+    L = float(rng.uniform(5.0, 30.0))
+    geo = {
+        'orth': orth,
+        # orthogonal: incident beam exactly along z, gravity exactly along -y
+        'incident_beam': np.array([0.0, 0.0, L]) if orth else np.array([rng.normal() * 0.3, rng.normal() * 0.3, L]),
+        'source_position': np.array([0.0, 0.0, -L]) if orth else np.array([rng.normal() * 0.3, rng.normal() * 0.3, -L]),
+        'sample_position': np.zeros(3),
+        'gravity': np.array([0.0, -9.80665, 0.0]),
+        'scattered_beam': rng.normal(size=(npix, 3)) * 1.5 + np.array([0.0, 0.0, 3.0]),
+        'pulse_time': float(rng.uniform(0.0, 100.0)),
+    }
+    return ev, geo
+
+
+def build_binned(case, ecoords):
+    """binned DataArray with the layout of `case` and the given event coordinates {name: (values, unit)}"""
+    import scipp as sc
+
+    npix, ntof, grid = case['npix'], case['ntof'], case['grid']
+    data = sc.array(dims=['event'], values=case['weights'], unit='counts')
+    if case['variances']:
+        data.variances = case['vars']
+    table = sc.DataArray(data, coords={n: sc.array(dims=['event'], values=v, unit=u) for n, (v, u) in ecoords.items()})
+    if grid == 'pixel':
+        sizes = {'spectrum': npix}
+    elif grid == 'tof':
+        sizes = {'tof': ntof}
+    elif case['transposed']:
+        sizes = {'tof': ntof, 'spectrum': npix}
+    else:
+        sizes = {'spectrum': npix, 'tof': ntof}
+    begin = sc.array(dims=['x'], values=case['begin'], unit=None).fold('x', sizes=sizes)
+    end = sc.array(dims=['x'], values=case['begin'] + case['sizes'], unit=None).fold('x', sizes=sizes)
+    return sc.DataArray(sc.bins(begin=begin, end=end, dim='event', data=table))
+
+
+def kernel_geometry(case, geo, tof_unit, index=None):
+    """dense operands of the kernels: per pixel on 'spectrum' (scalar for the 1-d tof grid) or gathered per event"""
+    import numpy as np
+    import scipp as sc
+
+    scalar_pix = case['grid'] == 'tof'
+
+    def pp(vals, unit, vec=False):
+        vals = np.asarray(vals)
+        if index is not None:
+            vals = vals[index]
+            return sc.vectors(dims=['event'], values=vals, unit=unit) if vec else sc.array(dims=['event'], values=vals, unit=unit)
+        if scalar_pix:
+            return sc.vector(value=vals[0], unit=unit) if vec else sc.scalar(float(vals[0]), unit=unit)
+        return sc.vectors(dims=['spectrum'], values=vals, unit=unit) if vec else sc.array(dims=['spectrum'], values=vals, unit=unit)
+
+    return {
+        'Ltotal': pp(case['Ltotal'], 'm'), 'two_theta': pp(case['two_theta'], 'rad'),
+        'L1': sc.scalar(case['L1'], unit='m'), 'L2': pp(case['L2'], 'm'),
+        'incident_energy': sc.scalar(case['incident_energy'], unit='meV'), 'final_energy': pp(case['final_energy'], 'meV'),
+        'incident_beam': sc.vector(value=geo['incident_beam'], unit='m'),
+        'scattered_beam': pp(geo['scattered_beam'], 'm', vec=True),
+        'gravity': sc.vector(value=geo['gravity'], unit='m/s^2'),
+        'pulse_time': sc.scalar(geo['pulse_time'], unit=tof_unit),
+        'position': pp(geo['scattered_beam'] + geo['sample_position'], 'm', vec=True),
+        'source_position': sc.vector(value=geo['source_position'], unit='m'),
+        'sample_position': sc.vector(value=geo['sample_position'], unit='m'),
+    }
+
+
+KERNELS = [
+    ('tof.wavelength_from_tof', lambda E, G: {'tof': E['tof'], 'Ltotal': G['Ltotal']}),
+    ('tof.dspacing_from_tof', lambda E, G: {'tof': E['tof'], 'Ltotal': G['Ltotal'], 'two_theta': G['two_theta']}),
+    ('tof.energy_from_tof', lambda E, G: {'tof': E['tof'], 'Ltotal': G['Ltotal']}),
+    ('tof.energy_transfer_direct_from_tof',
+     lambda E, G: {'tof': E['tof'], 'L1': G['L1'], 'L2': G['L2'], 'incident_energy': G['incident_energy']}),
+    ('tof.energy_transfer_indirect_from_tof',
+     lambda E, G: {'tof': E['tof'], 'L1': G['L1'], 'L2': G['L2'], 'final_energy': G['final_energy']}),
+    ('tof.energy_from_wavelength', lambda E, G: {'wavelength': E['wavelength']}),
+    ('tof.wavelength_from_energy', lambda E, G: {'energy': E['energy']}),
+    ('tof.Q_from_wavelength', lambda E, G: {'wavelength': E['wavelength'], 'two_theta': G['two_theta']}),
+    ('tof.wavelength_from_Q', lambda E, G: {'Q': E['Q'], 'two_theta': G['two_theta']}),
+    ('tof.Q_elements_from_wavelength',
+     lambda E, G: {'wavelength': E['wavelength'], 'incident_beam': G['incident_beam'], 'scattered_beam': G['scattered_beam']}),
+    ('tof.dspacing_from_wavelength', lambda E, G: {'wavelength': E['wavelength'], 'two_theta': G['two_theta']}),
+    ('tof.dspacing_from_energy', lambda E, G: {'energy': E['energy'], 'two_theta': G['two_theta']}),
+    ('tof.time_at_sample_from_tof',
+     lambda E, G: {'pulse_time': G['pulse_time'], 'tof': E['tof'], 'L2': G['L2'], 'wavelength': E['wavelength_A']}),
+    ('beamline.scattering_angles_with_gravity',
+     lambda E, G: {'incident_beam': G['incident_beam'], 'scattered_beam': G['scattered_beam'],
+                   'wavelength': E['wavelength'], 'gravity': G['gravity']}),
+    ('beamline.scattering_angle_in_yz_plane',
+     lambda E, G: {'incident_beam': G['incident_beam'], 'scattered_beam': G['scattered_beam'],
+                   'wavelength': E['wavelength'], 'gravity': G['gravity']}),
+]
+
+
+def _kernel_func(name):
+    import importlib
+
+    mod, fn = name.split('.')
+    return getattr(importlib.import_module(f'scippneutron.conversion.{mod}'), fn)
+
+
+def flat_binned(var, nbins):
+    """events of a binned variable bin by bin (row-major bin order) -> canonical (dtype, unit, bytes)"""
+    import numpy as np
+
+    c = var.bins.constituents
+    b = np.asarray(c['begin'].values).ravel()
+    e = np.asarray(c['end'].values).ravel()
+    data = c['data']
+    vals = np.asarray(data.values)
+    parts = [vals[int(b[i]):int(e[i])] for i in range(nbins)]
+    flat = np.concatenate(parts) if parts else vals[:0]
+    return (str(data.dtype), str(data.unit), [int(e[i] - b[i]) for i in range(nbins)], np.ascontiguousarray(flat).tobytes().hex())
+
+
+def canon_dense(var):
+    import numpy as np
+
+    return (str(var.dtype), str(var.unit), np.ascontiguousarray(var.values).tobytes().hex())
+
+
+def call_kernel(f, kwargs):
+    try:
+        r = f(**kwargs)
+    except Exception as e:  # noqa: BLE001
+        return None, _err(e)
+    return (r if isinstance(r, dict) else {'': r}), None
+
+
+def snapshot_any(da, dense):
+    return snapshot(da), {n: canon_dense(v) for n, v in dense.items()}
+
+
+def run_kernel_case(case, layout_line):
+    """every kernel with binned operands: event results vs the dense kernel on the flattened events (bitwise),
+    input snapshot before/after, second call on the same input"""
+    import numpy as np
+    import scipp as sc
+
+    ev, geo = kernel_setup(case)
+    sizes_f, order, pixel_of_bin, pix = converted_view(case)
+    nb = len(sizes_f)
+    m_ranges, m_bins = layout_line.split('|')
+    pred_flat = []
+    if nb:
+        for b in m_bins.split(';'):
+            pred_flat += [tuple(int(x) for x in e.split('.')) for e in b.split(',')] if b else []
+    pred_order = order[[c for c, _, _ in pred_flat]] if pred_flat else order[:0]
+    pred_pix = pixel_of_bin[[g for _, g, _ in pred_flat]] if pred_flat else np.zeros(0, dtype=np.int64)
+    own_pix = np.repeat(pixel_of_bin, sizes_f)
+    tof_unit = ev['tof'][1]
+    cfg = ' '.join(f'{n}:{u}/{d}' for n, (_, u, d) in ev.items() if n != 'wavelength_A') + (' orth' if geo['orth'] else ' tilted')
+    records = []
+    for name, mk in KERNELS:
+        if name.endswith('yz_plane') and not geo['orth']:
+            continue
+        f = _kernel_func(name)
+        rec = {'target': name, 'scatter': True, 'mode': cfg, 'dis': [], 'viol': [], 'numeric': None}
+        records.append(rec)
+        da = build_binned(case, {n: (v, u) for n, (v, u, _) in ev.items()})
+        G = kernel_geometry(case, geo, tof_unit)
+        E = {n: da.bins.coords[n] for n in ev}
+        snap = snapshot_any(da, G)
+        res, err = call_kernel(f, mk(E, G))
+        after = snapshot_any(da, G)
+        rec['outcome'] = 'ok' if res is not None else err
+        if after != snap:
+            changed = [n for n in snap[0]['ecoords'] if snap[0]['ecoords'][n] != after[0]['ecoords'].get(n)]
+            changed += [n for n in snap[1] if snap[1][n] != after[1].get(n)]
+            if snap[0]['data'] != after[0]['data']:
+                changed.append('weights')
+            rec['viol'].append((f'C06:input-modified:{name}',
+                                f'the operands {changed} differ (bit level) after calling {name} with binned operands'))
+        # dense reference: (a) own flattening, (b) the pairs the Lean model predicts
+        def dense_ref(ordr, pixs):
+            Ed = {n: sc.array(dims=['event'], values=v[ordr], unit=u) for n, (v, u, _) in ev.items()}
+            Gd = kernel_geometry(case, geo, tof_unit, index=np.asarray(pixs, dtype=np.int64))
+            return call_kernel(f, mk(Ed, Gd))
+        dres, derr = dense_ref(order, own_pix)
+        if (res is None) != (dres is None) or (res is None and err != derr):
+            rec['viol'].append((f'C06:event-vs-dense-exception:{name}',
+                                f'binned operands: {rec["outcome"]}; dense kernel on the flattened events: {"ok" if dres is not None else derr}'))
+            continue
+        if res is None:
+            continue
+        mres, _ = dense_ref(pred_order, pred_pix)
+        first = {}
+        for key, var in res.items():
+            if var.bins is None:
+                rec['viol'].append((f'C06:event-value-differs-from-dense:{name}', f'output {key!r} is not binned'))
+                continue
+            got = flat_binned(var, nb)
+            first[key] = got
+            exp = dres[key]
+            if got[2] != [int(x) for x in sizes_f]:
+                rec['viol'].append((f'C06:bin-sizes-changed:{name}', f'output {key!r}: bin sizes {got[2][:8]} != {sizes_f.tolist()[:8]}'))
+            elif (got[0], got[1], got[3]) != canon_dense(exp):
+                gv = np.frombuffer(bytes.fromhex(got[3]), dtype=np.asarray(exp.values).dtype if got[0] == str(exp.dtype) else np.uint8)
+                xv = np.asarray(exp.values).ravel()
+                k = int(np.argmax(gv != xv)) if gv.shape == xv.shape and len(gv) else -1
+                rec['viol'].append((f'C06:event-value-differs-from-dense:{name}',
+                                    f'output {key!r} ({got[0]} [{got[1]}] vs dense {exp.dtype} [{exp.unit}])'
+                                    + (f': event {k}: {gv[k]!r} vs {xv[k]!r}' if k >= 0 else '')))
+            if mres is None or (got[0], got[1], got[3]) != canon_dense(mres[key]) or got[2] != [int(x) for x in sizes_f]:
+                rec['dis'].append((f'{name} output {key!r}: binned result vs dense kernel on the model-predicted (event, geometry) pairs',
+                                   got[:3], None if mres is None else canon_dense(mres[key])[:2]))
+        # second call on the same input must give the same answer
+        res2, err2 = call_kernel(f, mk(E, G))
+        second = {k: flat_binned(v, nb) for k, v in (res2 or {}).items() if v.bins is not None}
+        if res2 is None or second != first:
+            rec['viol'].append((f'C06:second-call-differs:{name}',
+                                f'calling {name} a second time on the same binned operands gives {"a different result" if res2 is not None else err2}'))
+    return records
+
+
+def gravity_graph(orth):
+    from scippneutron.conversion import beamline as kb
+    from scippneutron.conversion import graph as cg
+
+    g = {**cg.beamline.beamline(scatter=True), **cg.tof.elastic('wavelength')}
+    del g['two_theta']   # replaced by the gravity-corrected angles
+    g[('two_theta', 'phi')] = kb.scattering_angles_with_gravity
+    if orth:
+        g['gamma'] = kb.scattering_angle_in_yz_plane
+    return g
+
+
+def run_graph_case(case, layout_line):
+    """transform_coords with the gravity kernels in the graph (as reflectometry / SANS workflows do), binned event
+    wavelength; per target: event result vs dense transform of the flattened events, snapshot, second call"""
+    import numpy as np
+    import scipp as sc
+
+    ev, geo = kernel_setup(case)
+    if case['grid'] == 'tof':
+        return []
+    sizes_f, order, pixel_of_bin, pix = converted_view(case)
+    nb = len(sizes_f)
+    own_pix = np.repeat(pixel_of_bin, sizes_f)
+    wl, unit, dtype = ev['wavelength']
+    graph = gravity_graph(geo['orth'])
+    cfg = f'wavelength:{unit}/{dtype}' + (' orth' if geo['orth'] else ' tilted')
+
+    def make(binned):
+        if binned:
+            da = build_binned(case, {'wavelength': (wl, unit), 'pulse_time': (case['pulse_time'], 'ms')})
+            G = kernel_geometry(case, geo, 'us')
+        else:
+            da = sc.DataArray(sc.array(dims=['event'], values=np.ones(len(order))),
+                              coords={'wavelength': sc.array(dims=['event'], values=wl[order], unit=unit)})
+            G = kernel_geometry(case, geo, 'us', index=own_pix)
+        for n in ('position', 'source_position', 'sample_position', 'gravity'):
+            da.coords[n] = G[n]
+        return da
+
+    records = []
+    for target in ['two_theta', 'phi', 'Q', 'dspacing'] + (['gamma'] if geo['orth'] else []):
+        rec = {'target': 'graph:' + target, 'scatter': True, 'mode': cfg, 'dis': [], 'viol': [], 'numeric': None}
+        records.append(rec)
+        name = f'transform_coords[{target}]'
+        da = make(True)
+        snap = snapshot(da)
+
+        def tr(x):
+            try:
+                return x.transform_coords(target, graph=graph), None
+            except Exception as e:  # noqa: BLE001
+                return None, _err(e)
+        res, err = tr(da)
+        rec['outcome'] = 'ok' if res is not None else err
+        if snapshot(da) != snap:
+            rec['viol'].append((f'C06:input-modified:{name}', 'the binned input differs (bit level) after transform_coords with the gravity graph'))
+        dres, derr = tr(make(False))
+        if (res is None) != (dres is None) or (res is None and err != derr):
+            rec['viol'].append((f'C06:event-vs-dense-exception:{name}', f'event mode {rec["outcome"]}, dense {"ok" if dres is not None else derr}'))
+            continue
+        if res is None:
+            continue
+        if target not in res.bins.coords:
+            rec['viol'].append((f'C06:event-value-differs-from-dense:{name}', 'no event coordinate in the result'))
+            continue
+        got = flat_binned(res.bins.coords[target], nb)
+        if got[2] != [int(x) for x in sizes_f]:
+            rec['viol'].append((f'C06:bin-sizes-changed:{name}', 'bin sizes changed'))
+        elif (got[0], got[1], got[3]) != canon_dense(dres.coords[target]):
+            rec['viol'].append((f'C06:event-value-differs-from-dense:{name}',
+                                f'event {target} ({got[0]} [{got[1]}]) differs from the dense transform of the flattened events '
+                                f'({dres.coords[target].dtype} [{dres.coords[target].unit}])'))
+        res2, err2 = tr(da)
+        if res2 is None or target not in res2.bins.coords or flat_binned(res2.bins.coords[target], nb) != got:
+            rec['viol'].append((f'C06:second-call-differs:{name}', 'a second transform_coords of the same input gives a different result'))
+    return records
+
+
 # ---- workers ----------------------------------------------------------------------------------------------
 
 def init_worker(counter):
@@ -578,7 +917,12 @@ def run_chunk(args):
     for idx, layout_line, edges_line, kinds in items:
         case = make_case(seed, idx)
         try:
-            out.append((idx, summary(case), run_case(case, layout_line, edges_line, kinds)))
+            if idx >= GRAPH_BASE:
+                out.append((idx, summary(case), run_graph_case(case, layout_line)))
+            elif idx >= KERNEL_BASE:
+                out.append((idx, summary(case), run_kernel_case(case, layout_line)))
+            else:
+                out.append((idx, summary(case), run_case(case, layout_line, edges_line, kinds)))
         except Exception:  # noqa: BLE001
             out.append((idx, summary(case), traceback.format_exc()))
     return out
@@ -610,6 +954,8 @@ def model_lines(ctx, seed, idxs):
         lines.append(f'c06.layout {s} {g}')
         lines.append(f'c06.edges {case["ntof"] + 1} {",".join(str(i) for i in range(len(pix))) or "-"}')
         for target, scatter, mode in TARGETS:
+            if idx >= KERNEL_BASE:
+                break
             if not applicable(case, target, scatter, mode) or target not in ncode:
                 continue
             dense = list(GEOM_NAMES[case['geom_kind']]) + (['tof'] if case['edges'] else [])
@@ -691,6 +1037,8 @@ def correspond(ctx):
     sc.get_logger().setLevel('ERROR')
     n = ctx.n(260, 15000)
     idxs = list(range(n))
+    idxs += list(range(KERNEL_BASE, KERNEL_BASE + ctx.n(150, 6000)))
+    idxs += list(range(GRAPH_BASE, GRAPH_BASE + ctx.n(120, 4000)))
     workers = int(os.environ.get('VERIF_WORKERS', '4' if ctx.quick else '12'))
     results = _run(ctx, ctx.seed, idxs, workers)
     _STASH['viols'] = _process(ctx, results)
@@ -723,7 +1071,12 @@ def replay(ctx, payload):
         return False
     items = model_lines(ctx, w['seed'], [w['idx']])
     case = make_case(w['seed'], w['idx'])
-    recs = run_case(case, items[0][1], items[0][2], items[0][3])
+    if w['idx'] >= GRAPH_BASE:
+        recs = run_graph_case(case, items[0][1])
+    elif w['idx'] >= KERNEL_BASE:
+        recs = run_kernel_case(case, items[0][1])
+    else:
+        recs = run_case(case, items[0][1], items[0][2], items[0][3])
     hit = False
     for r in recs:
         if (r['target'], r['scatter'], r['mode']) == (w['target'], w['scatter'], w['mode']):
